@@ -70,6 +70,11 @@
 //     in declaration order, "nil" for a nil pointer); a store to a field of
 //     abstract type of a translated struct (`rec.Time = start`) is recorded
 //     like a write to an abstract object: ("set rec.Time", ["start"]);
+//   - `defer f(…)` and `defer func() { … }()` (no return inside, named or no
+//     results, not inside a loop): the deferred bodies run at every later
+//     return, last one first, after the result variables have been set — so a
+//     deferred closure sees and the trace shows what happens on each path;
+//     scalar arguments of a directly deferred call must be constants;
 //   - "out" lists local variables (typically pointers the function mutates
 //     through, `rec.Queries++`) whose final value is returned after the
 //     declared results; they start as their zero value.
@@ -418,6 +423,7 @@ type fctx struct {
 	opaqueVals  map[string]string
 	opaqueNodes map[ast.Expr]string
 	opaqueCalls map[*ast.CallExpr]string
+	defers      [][]ast.Stmt
 }
 
 type ex struct {
@@ -1258,6 +1264,9 @@ func (c *fctx) ret(vals []string) string {
 		r = "(" + strings.Join(parts, ", ") + ")"
 	}
 	if c.loop != nil {
+		if len(c.defers) > 0 {
+			fail("return inside a loop with pending defers")
+		}
 		return "«step»(.ret " + r + ")"
 	}
 	return "«ret»" + r
@@ -1392,7 +1401,78 @@ func (c *fctx) rangeLoop(x *ast.RangeStmt, rest []ast.Stmt) string {
 	})
 }
 
+// returnWithDefers: at a return (or the end of the body) with pending defers,
+// set the named results, run the deferred bodies (last first), return.
+func (c *fctx) returnWithDefers(list []ast.Stmt) (string, bool) {
+	if len(c.defers) == 0 || c.loop != nil {
+		return "", false
+	}
+	var retS *ast.ReturnStmt
+	if len(list) > 0 {
+		if retS, _ = list[0].(*ast.ReturnStmt); retS == nil {
+			return "", false
+		}
+	}
+	if len(c.results) > 0 && !c.named {
+		fail("defer with unnamed results")
+	}
+	var seq []ast.Stmt
+	if retS != nil && len(retS.Results) > 0 {
+		as := &ast.AssignStmt{Tok: token.ASSIGN, Rhs: retS.Results}
+		for _, r := range c.results {
+			id := &ast.Ident{Name: r.Name()}
+			c.p.info.Uses[id] = r
+			as.Lhs = append(as.Lhs, id)
+		}
+		seq = append(seq, as)
+	}
+	for i := len(c.defers) - 1; i >= 0; i-- {
+		seq = append(seq, c.defers[i]...)
+	}
+	saved := c.defers
+	c.defers = nil
+	out := c.stmts(append(seq, &ast.ReturnStmt{}))
+	c.defers = saved
+	return out, true
+}
+
+func (c *fctx) deferStmt(x *ast.DeferStmt, rest []ast.Stmt) string {
+	body := []ast.Stmt{&ast.ExprStmt{X: x.Call}}
+	if fl, ok := x.Call.Fun.(*ast.FuncLit); ok && len(x.Call.Args) == 0 {
+		ast.Inspect(fl.Body, func(n ast.Node) bool {
+			if _, isRet := n.(*ast.ReturnStmt); isRet {
+				fail("return inside a deferred closure")
+			}
+			if id, isID := n.(*ast.Ident); isID && c.p.info.Defs[id] != nil {
+				for _, r := range c.results {
+					if r.Name() == id.Name {
+						fail("deferred closure shadows result %s", id.Name)
+					}
+				}
+			}
+			return true
+		})
+		body = fl.Body.List
+	} else {
+		for _, a := range x.Call.Args {
+			if tv := c.p.info.Types[a]; tv.Value == nil && c.traceArg(a) != "\"_\"" {
+				fail("deferred call %s with a non-constant scalar argument", c.show(x.Call))
+			}
+		}
+	}
+	if c.loop != nil {
+		fail("defer inside a loop")
+	}
+	c.defers = append(c.defers, body)
+	out := c.stmts(rest)
+	c.defers = c.defers[:len(c.defers)-1]
+	return out
+}
+
 func (c *fctx) stmts(list []ast.Stmt) string {
+	if out, ok := c.returnWithDefers(list); ok {
+		return out
+	}
 	if len(list) == 0 && c.loop != nil {
 		return "«step»(.next " + c.stateTuple(c.loop.state) + ")"
 	}
@@ -1521,7 +1601,7 @@ func (c *fctx) stmts(list []ast.Stmt) string {
 		if c.matches(c.spec.Ignore, x.Call) {
 			return c.stmts(rest)
 		}
-		fail("defer %s", c.show(x))
+		return c.deferStmt(x, rest)
 	}
 	fail("statement %s (%T)", c.show(s), s)
 	return ""
